@@ -301,7 +301,8 @@ class TerminalDevice(Device):
 
         if format_string:
             formatter = PrintUsingFormatter(format_string.value)
-            new_line = printables[-1] not in [comma, semicolon]
+            new_line = not printables or \
+                printables[-1] not in [comma, semicolon]
             printables = [a.value for a in printables
                           if a != semicolon and a != comma]
             self.impl.terminal_print(formatter.format(printables))
